@@ -137,6 +137,22 @@ def writer_round_trip(report, folder):
                              "XlsxRowWriter: table %r reads back as %r" % (_short(table), _short(back)))
             break
         os.remove(path)
+    # a row is any sequence of items: tuples and one-shot iterables are written like lists
+    path = os.path.join(folder, "iterables.xlsx")
+    report.replayed += 1
+    try:
+        with rowio.XlsxRowWriter(path) as writer:
+            writer.write_row(("t", "u"))
+            writer.write_row(str(number) for number in range(2))
+            writer.write_row(iter(["i", "j"]))
+            writer.write_rows(iter([["k", "l"], ("m", "n")]))
+        back = list(rowio.excel_rows(path))
+    except Exception as error:  # noqa
+        back = "%s: %s" % (type(error).__name__, error)
+    expected = [["t", "u"], ["0", "1"], ["i", "j"], ["k", "l"], ["m", "n"]]
+    if back != expected:
+        report.violation("c16", {"writer_table": "rows given as tuple, generator, iterator"}, expected, back,
+                         "XlsxRowWriter: rows given as tuple, generator and iterator read back as %r instead of %r" % (back, expected))
     # what the file format cannot hold is refused, not truncated; the writer goes on with the next row
     too_long = "y" * 32768
     for position in (0, 1):
